@@ -4,7 +4,9 @@
                                             | ERR(eval_error) <hex reason> <line>:<col>
                                             | CRASH <kind> | OUTOFFUEL
      nodes <hex input> [<hex file name>]   -> OK Kind@<hex file>:<l1>:<c1>-<l2>:<c2>, ...   every Id / Fun_Call / Dot_Access / Array_Call
-                                              node of the tree in pre-order (C20), or the ERR / CRASH / OUTOFFUEL line as above *)
+                                              node of the tree in pre-order (C20), or the ERR / CRASH / OUTOFFUEL line as above
+     ticks <hex input>                     -> TICKS <n> <outcome class>   n = grammar-function invocations the model made
+   (line splitting and hex decoding are done here, linearly: StrUtil.words / bytes_of_hex are quadratic in the line length) *)
 From Coq Require Import ZArith NArith List Bool String Ascii.
 From ChaiV Require Import StrUtil NumDefs Ast LexDefs ParserDefs.
 From ChaiV.Gen Require Import G_IntLadder G_Keywords G_OperatorTable.
@@ -37,17 +39,41 @@ Definition run_parse (show : pnode -> string) (input : list N) (file : string) :
   | OutOfFuel => "OUTOFFUEL"
   end.
 
+Fixpoint span_sp (s : string) : string * string :=
+  match s with
+  | EmptyString => ("", "")
+  | String c r => if Ascii.eqb c " " then ("", r) else let '(w, rest) := span_sp r in (String c w, rest)
+  end.
+Fixpoint unhex (s : string) : option (list N) :=
+  match s with
+  | EmptyString => Some []
+  | String a (String b r) =>
+      match hexval a, hexval b, unhex r with
+      | Some x, Some y, Some l => Some ((16 * x + y)%N :: l)
+      | _, _, _ => None
+      end
+  | _ => None
+  end.
+Definition unhex_field (s : string) : option (list N) := if String.eqb s "-" then Some [] else unhex s.
+
+Definition run_ticks (input : list N) : string :=
+  match parse_full A T K G input "F" with
+  | Ok (_, s) => "TICKS " ++ dec_of_N (ticks (user s)) ++ " ok"
+  | Err _ _ _ => "TICKS 0 eval_error"
+  | Crash _ => "TICKS 0 crash"
+  | OutOfFuel => "TICKS 0 outoffuel"
+  end.
+
 Definition run_line (l : string) : string :=
-  let w := words l in
-  let cmd := nth_word 0 w in
-  let file := match nth_error w 2 with
-              | Some h => match bytes_of_hex h with Some b => LexDefs.string_of_bytes b | None => "F" end
-              | None => "F"
-              end in
-  match bytes_of_hex (nth_word 1 w) with
+  let '(cmd, r1) := span_sp l in
+  let '(f1, r2) := span_sp r1 in
+  let '(f2, _) := span_sp r2 in
+  let file := if String.eqb f2 "" then "F" else match unhex_field f2 with Some b => LexDefs.string_of_bytes b | None => "F" end in
+  match unhex_field f1 with
   | None => "BADCASE"
   | Some input =>
       if String.eqb cmd "raw" then run_parse (fun n => show_ast (to_ast n)) input file
       else if String.eqb cmd "nodes" then run_parse (fun n => join "," (nodes_of n)) input file
+      else if String.eqb cmd "ticks" then run_ticks input
       else "BADCASE"
   end.
